@@ -301,6 +301,20 @@ Definition a_off {X} (da : val -> option X) (args : list val) (f : X -> bool -> 
       end
   | _ => VBad
   end.
+(** impl Ord / PartialOrd / PartialEq for DateTime<Tz> all read the [datetime] (UTC) field:
+    [cmp] = [self.datetime.cmp(&other.datetime)], [partial_cmp] = [self.datetime.partial_cmp(..)] (derived on
+    NaiveDateTime: always Some), [eq] = [self.datetime == other.datetime] (derived: field-wise);
+    [core::cmp::max(a, b)] (Ord::max) is [b] unless [a > b].  Observation of [ar.zord]:
+    (a.cmp(&b), a.partial_cmp(&b), a == b, max(a, b) == a) *)
+Definition z_eqb (a b : dtz) : bool :=
+  (nd_date (dz_utc a) =? nd_date (dz_utc b))
+  && (Time.tsecs (nd_time (dz_utc a)) =? Time.tsecs (nd_time (dz_utc b)))
+  && (Time.tfrac (nd_time (dz_utc a)) =? Time.tfrac (nd_time (dz_utc b))).
+Definition z_max (a b : dtz) : dtz := if dz_cmp a b =? 1 then a else b.
+Definition zord_obs (a b : dtz) : val :=
+  VTup [VInt (dz_cmp a b); VSome (VInt (ndt_cmp (dz_utc a) (dz_utc b))); val_of_bool (z_eqb a b);
+        val_of_bool (z_eqb (z_max a b) a)].
+
 Definition run2 (op : bytes) (args : list val) : val :=
   if op_is op "ar.opdasg" then
     a3 dec_date arg_sign dec_td args (fun d sg x => val_of_R enc_date (if sg then op_dadd_assign d x else op_dsub_assign d x))
@@ -311,6 +325,7 @@ Definition run2 (op : bytes) (args : list val) : val :=
   else if op_is op "ar.zstdasg" then
     a_std dec_dtz args (fun a sg s n => val_of_R enc_dtz (if sg then op_zadd_std_assign a s n else op_zsub_std_assign a s n))
   else if op_is op "ar.opzdiffref" then a2 dec_dtz dec_dtz args (fun a b => val_of_R enc_td (op_zsub_zref a b))
+  else if op_is op "ar.zord" then a2 dec_dtz dec_dtz args zord_obs
   else if op_is op "ar.noff" then
     a_off dec_ndt args (fun a sg off => val_of_R vo_ndt (if sg then ndt_checked_add_offset a off else ndt_checked_sub_offset a off))
   else if op_is op "ar.opnoff" then
